@@ -11,8 +11,10 @@ Section Orc.
   Definition o_cdres (cwd tgt : str) : str := sx_str (orc (q "cdres" [A cwd; A tgt])).
   Definition o_injrisk (c : ctx) (ws : list str) : bool := sx_bool (orc (q "injrisk" (sx_ctx c ++ [sx_of_strs ws]))).
 
-  Definition the_walk := walk o_simple o_astr o_mredir o_cdres o_injrisk.
-  Definition the_analyze_nodes := analyze_nodes o_simple o_astr o_mredir o_cdres o_injrisk.
+  Definition o_rulematch (c : ctx) (ws : list str) : bool := sx_bool (orc (q "rulematch" (sx_ctx c ++ [sx_of_strs ws]))).
+
+  Definition the_walk := walk o_simple o_astr o_mredir o_cdres o_injrisk o_rulematch.
+  Definition the_analyze_nodes := analyze_nodes o_simple o_astr o_mredir o_cdres o_injrisk o_rulematch.
 
   Definition sx_of_raw (r : raw_result) : sx :=
     match r with
